@@ -10,7 +10,8 @@
        search (this is how a self-signed certificate finds its own node)
      * the issuer is the FIRST node of nodesBySubject[issuer name], in node creation order, whose
        key verifies the signature
-     * an edge without issuer goes to missingIssuerNode[issuer name]
+     * an edge without issuer goes to missingIssuerNode[issuer name] and (since 59a173b) to
+       the parentsWithoutIssuer set of its child node; the fix-up removes it from both
      * the fix-up runs only when the insertion created a NEW node, looks only at
        missingIssuerNode[subject of the new node], and removes what it fixed
      * AddRoot = AddCert, then set the root flag of the edge                                  *)
@@ -27,9 +28,10 @@ VARIABLES u,            \* the universe (set of catalogue indices) chosen in Ini
           parents,      \* set of <<child node, issuer node, edge>>  (parentsBySubjectAndKey)
           children,     \* set of <<issuer node, child node, edge>>  (childrenBySubjectAndKey)
           missing,      \* set of <<issuer name, edge>>              (missingIssuerNode)
+          noiss,        \* set of <<child node, edge>>               (parentsWithoutIssuer, 59a173b)
           root          \* set of edges with the root flag
 
-bvars == <<u, added, addedRoot, nodes, edges, issuer, parents, children, missing, root>>
+bvars == <<u, added, addedRoot, nodes, edges, issuer, parents, children, missing, noiss, root>>
 
 Cat(n) == Catalog[n]
 MinOf(S) == CHOOSE x \in S : \A y \in S : x <= y
@@ -51,7 +53,7 @@ AddCertRes(n) ==
       fixed  == {m[2] : m \in fix}
   IN IF n \in edges
      THEN [nodes |-> nodes, edges |-> edges, issuer |-> issuer, parents |-> parents,
-           children |-> children, missing |-> missing]
+           children |-> children, missing |-> missing, noiss |-> noiss]
      ELSE [nodes    |-> nodes1,
            edges    |-> edges \cup {n},
            issuer   |-> [x \in DOMAIN issuer |-> IF x \in fixed THEN nd ELSE IF x = n THEN is1 ELSE issuer[x]],
@@ -59,10 +61,14 @@ AddCertRes(n) ==
                                 \cup {<<NodeOf(Cat(x)), nd, x>> : x \in fixed},
            children |-> children \cup (IF is1 = NoNode THEN {} ELSE {<<is1, nd, n>>})
                                  \cup {<<nd, NodeOf(Cat(x)), x>> : x \in fixed},
-           missing  |-> miss1 \ fix]
+           missing  |-> miss1 \ fix,
+           \* added next to missingIssuerNode, removed by the fix-up
+           noiss    |-> (IF is1 = NoNode THEN noiss \cup {<<nd, n>>} ELSE noiss)
+                          \ {<<NodeOf(Cat(x)), x>> : x \in fixed}]
 
 Apply(r) == /\ nodes' = r.nodes /\ edges' = r.edges /\ issuer' = r.issuer
             /\ parents' = r.parents /\ children' = r.children /\ missing' = r.missing
+            /\ noiss' = r.noiss
 
 AddCert(n) == /\ Apply(AddCertRes(n))
               /\ added' = added \cup {n}
@@ -77,7 +83,7 @@ KSubsets(S, k) == {T \in SUBSET S : Cardinality(T) >= 1 /\ Cardinality(T) <= k}
 
 InitB == /\ u \in {Universe(x) : x \in MCNames} \cup (IF ProductK = 0 THEN {} ELSE KSubsets(ProductIdx, ProductK))
          /\ added = {} /\ addedRoot = {}
-         /\ nodes = <<>> /\ edges = {} /\ parents = {} /\ children = {} /\ missing = {} /\ root = {}
+         /\ nodes = <<>> /\ edges = {} /\ parents = {} /\ children = {} /\ missing = {} /\ noiss = {} /\ root = {}
          /\ issuer = [x \in u |-> NoNode]
 
 NextB == \E n \in u : AddCert(n) \/ AddRoot(n)
@@ -95,6 +101,7 @@ ObsOfB ==
    parents  |-> SeqOf({[node |-> t[1], other |-> t[2], edges |-> <<Cat(t[3]).id>>] : t \in parents}),
    children |-> SeqOf({[node |-> t[1], other |-> t[2], edges |-> <<Cat(t[3]).id>>] : t \in children}),
    missing  |-> SeqOf({[name |-> t[1], edges |-> <<Cat(t[2]).id>>] : t \in missing}),
+   noissuer |-> SeqOf({[node |-> t[1], edges |-> <<Cat(t[2]).id>>] : t \in noiss}),
    findnode |-> [i \in 1..Len(nodes) |-> TRUE]]
 
 \* B => A : every reachable state is a graph of (added, addedRoot)
